@@ -24,20 +24,32 @@ ASSUMPTIONS = [
     'the data_txn hint of an iterator record only has to name a revision '
     'of that oid with equal bytes',
 ]
-SHRINK = ['ops']
+SHRINK = ['ops', 'base_ops']
 
-KINDS = ['file', 'file', 'file', 'mapping']
+KINDS = ['file', 'file', 'file', 'file', 'mapping', 'demo:mapping:mapping',
+         'demo:file:mapping', 'demo:file:file']
 
 
 def gen_case(seed, tier):
     r = random.Random(seed)
     kind = r.choice(KINDS)
+    base_ops = []
+    if kind.startswith('demo'):
+        bk = kind.split(':')[1]
+        base_ops = G.gen_history(
+            ctx.subseed(seed, 'base'), bk, n=r.randint(0, 4),
+            weights={'new_oid': 0, 'wrong': 0, 'reopen': 0, 'rtxn': 0,
+                     'delete': 0, 'undo': 0})
     case = {
-        'kind': kind,
+        'kind': kind, 'base_ops': base_ops,
         'bufsize': r.choice((16, 64, 512, 4096, 8192, 65536)),
         'tick': r.choice((0.37, 0.37, 1e-7, 45.0)),
-        'ops': G.gen_history(ctx.subseed(seed, 'hist'), kind,
-                             weights={'new_oid': 0}),
+        'ops': G.gen_history(ctx.subseed(seed, 'hist'),
+                             'demo' if kind.startswith('demo') else kind,
+                             weights=({'new_oid': 0, 'undo': 0, 'delete': 0,
+                                       'rtxn': 0, 'reopen': 0}
+                                      if kind.startswith('demo')
+                                      else {'new_oid': 0})),
         'sweep_p': r.choice((0.0, 0.3, 1.0)),
     }
     return case
@@ -46,7 +58,9 @@ def gen_case(seed, tier):
 def run(case):
     sim = ctx.activate(ctx.Sim(case['seed'], bufsize=case['bufsize'],
                                clock={'tick': case['tick']}))
-    d = Driver(sim, case['kind'])
+    d = Driver(sim, case['kind'],
+               opts={'base_ops': case.get('base_ops', [])}
+               if case['kind'].startswith('demo') else None)
     r = random.Random(ctx.subseed(case['seed'], 'sweeps'))
     try:
         for op in case['ops']:
